@@ -29,6 +29,7 @@ MAP = [
     ("OP_CHECKMULTISIG fails when a signature matches none", "C06", "last signature matching no key fell through to success (m-1 good + junk accepted)"),
     ("verify_input rejects a non-empty ScriptSig on native witness", "C06", "scriptSig [OP_1] spent any P2WPKH/P2WSH/P2TR output"),
     ("P2SH-wrapped witness programs must be the only ScriptSig element", "C06", "scriptSig [junk, redeemScript] spent P2SH-P2WPKH/P2SH-P2WSH outputs without a signature"),
+    ("verify_input requires a push-only ScriptSig for p2sh inputs", "C06", "scriptSig <redeemScript> OP_NOP spent any P2SH output without signatures"),
     ("OP_PICK and OP_ROLL fail on a negative operand", "C07", "negative PICK/ROLL operand succeeded"),
     ("OP_CHECKSEQUENCEVERIFY is a NOP when the operand has the disable flag", "C07", "CSV operand with bit 31 set was rejected"),
     ("script evaluation ends with CastToBool", "C07", "final stack top 00 / 80 / 0000 counted as true"),
